@@ -389,8 +389,11 @@ def check_handlers(ctx, facts, rule):
             exp = ([('k',)], exp_dd, ans == 'ok')
             if got != exp:
                 bad.append((got, exp, ''))
+        if any(('spawned-detached',) in res[0] for log, res in out[('purge', None, ans)] if res and res[0] != 'panic' and isinstance(res[0], list)):
+            bad.insert(0, ('the storage removal runs in a detached task: the handler returns (and the actor takes the next message) before storage has removed the tombstones, '
+                           'so a later write of the same key can be deleted by the late removal, and a failed removal is never re-marked', '', ''))
         ok_ = seen > 0 and not bad
         ctx.ob(rule, 'purge|storage %s' % {'ok': 'succeeds', 'err-none': 'fails having removed nothing', 'err-all': 'fails having removed everything'}[ans], ok_, site_of('purge'),
                'purge: storage is asked to remove exactly the purged tombstones and the set forgets exactly the ones storage removed' if ok_ else
-               'purge with storage %s: %s' % (ans, bad[0]))
+               'purge with storage %s: %s' % (ans, bad[0][0] if isinstance(bad[0], tuple) and isinstance(bad[0][0], str) else bad[0]))
     return True
